@@ -179,6 +179,25 @@ func (c *ctx) rxPattern() string {
 		p = p + r.Pick("", ".*", "\\s*", "x?") + "\\z"
 	case 6:
 		p = "\\A" + r.Pick("", ".*") + p + r.Pick("", ".*") + "\\z"
+	case 8:
+		if r.Chance(0.5) {
+			// an alternation of long literals, around the 255/256 byte mark (tables indexed by a byte-sized window length)
+			mk := func(seedCh string) string {
+				n := []int{200, 254, 255, 256, 257, 300, 512}[r.Intn(7)]
+				var sb strings.Builder
+				sb.WriteString(seedCh)
+				for sb.Len() < n {
+					sb.WriteString(r.Pick("ab", "cd1", "x", "Qz", "09"))
+				}
+				return sb.String()[:n]
+			}
+			k := 2 + r.Intn(2)
+			alts := make([]string, k)
+			for i := range alts {
+				alts[i] = mk(string(rune('A' + i)))
+			}
+			p = r.Pick("", "(?i)", "x?") + "(?:" + strings.Join(alts, "|") + ")" + r.Pick("", "y*", "$")
+		}
 	case 7:
 		// pure literal equality and friends
 		w := rxWords[r.Intn(22)]
@@ -268,8 +287,8 @@ func (c *ctx) rxInputs(pat string) []string {
 			var sb strings.Builder
 			c.rxSample(re, &sb, 0)
 			s := sb.String()
-			if len(s) > 400 {
-				s = s[:400]
+			if len(s) > 900 {
+				s = s[:900]
 			}
 			ins = append(ins, s)
 			// perturbations of a (probably) matching string
